@@ -1024,6 +1024,9 @@ func boundaryNumbers() []int32 {
 	return []int32{18999, 19000, 19999, 20000, 65535, 65536, 1 << 20, 1<<20 + 1, 1<<29 - 1, 1 << 29, math.MaxInt32 - 1, math.MaxInt32}
 }
 
+// when set, implDump obtains the descriptor through this function instead of a fresh-map NewDesccriptorFromContent
+var c15ParseHook func(s *pSchema, mode meta.ParseServiceMode) (*proto.ServiceDescriptor, error)
+
 // dump the descriptor of one parse; what: 1 graph only, 2 + number probes, 3 + key probes
 func implDump(r *rng, s *pSchema, mode meta.ParseServiceMode, what int, allNames []string) (toks []string, stats map[string]int) {
 	stats = map[string]int{}
@@ -1035,6 +1038,11 @@ func implDump(r *rng, s *pSchema, mode meta.ParseServiceMode, what int, allNames
 	var svc *proto.ServiceDescriptor
 	var err error
 	ok, _ := noPanic(func() {
+		if c15ParseHook != nil {
+			// harness/c15c.go: the call goes through another entry point / reuses the caller's includes map
+			svc, err = c15ParseHook(s, mode)
+			return
+		}
 		svc, err = proto.Options{ParseServiceMode: mode}.NewDesccriptorFromContent(context.Background(), s.files[0].path, s.files[0].text(), includes)
 	})
 	if !ok || err != nil || svc == nil {
